@@ -16,6 +16,33 @@ fn der_length_roundtrip() {
     assert_eq!(rd.len(), 0);
 }
 
+/// a reader that delivers at most ONE octet per `read` call (short reads are legal for `std::io::Read`): the primitives must not depend on
+/// a single call filling the buffer
+pub struct OneByte<'a>(pub &'a [u8]);
+impl<'a> std::io::Read for OneByte<'a> {
+    fn read(&mut self, buf: &mut [u8]) -> std::io::Result<usize> {
+        if buf.is_empty() || self.0.is_empty() {
+            return Ok(0);
+        }
+        buf[0] = self.0[0];
+        self.0 = &self.0[1..];
+        Ok(1)
+    }
+}
+
+/// read_length(write_length(n)) == n for ALL u64 through the one-octet-per-call reader, exact consumption
+#[kani::proof]
+#[kani::unwind(10)]
+fn der_length_short_reads() {
+    let n: u64 = kani::any();
+    let mut buf: Vec<u8> = Vec::new();
+    buf.write_length(n).unwrap();
+    let mut rd = OneByte(&buf[..]);
+    let m = rd.read_length().unwrap();
+    assert_eq!(n, m);
+    assert_eq!(rd.0.len(), 0);
+}
+
 /// all four classes x value < 64 (the property asks < 31)
 #[kani::proof]
 #[kani::unwind(4)]
@@ -136,6 +163,50 @@ fn enum_rt<const N: u64, const STD: u64, const EXT: bool>() {
     }
     assert_eq!(r.into_inner().len(), 0);
     std::mem::forget(buf);
+}
+
+/// the same type with a tag of its own ([APPLICATION 3] / [7] ENUMERATED): writer and reader must both use the TYPE's tag
+pub struct EnT<const CLASS: u8>(pub u64);
+impl<const CLASS: u8> common::Constraint for EnT<CLASS> {
+    const TAG: Tag = match CLASS {
+        0 => Tag::Application(3),
+        1 => Tag::ContextSpecific(7),
+        _ => Tag::Private(1),
+    };
+}
+impl<const CLASS: u8> enumerated::Constraint for EnT<CLASS> {
+    const NAME: &'static str = "EnT";
+    const VARIANT_COUNT: u64 = 3;
+    const STD_VARIANT_COUNT: u64 = 3;
+    const EXTENSIBLE: bool = false;
+    fn to_choice_index(&self) -> u64 {
+        self.0
+    }
+    fn from_choice_index(index: u64) -> Option<Self> {
+        if index < 3 { Some(EnT(index)) } else { None }
+    }
+}
+
+fn enum_tagged_rt<const CLASS: u8>() {
+    let idx: u64 = kani::any();
+    kani::assume(idx < 3);
+    let mut w = BasicWriter::from(Vec::<u8>::new());
+    w.write_enumerated(&EnT::<CLASS>(idx)).unwrap();
+    let buf = w.into_inner();
+    let mut r = BasicReader::from(&buf[..]);
+    match r.read_enumerated::<EnT<CLASS>>() {
+        Ok(v) => assert_eq!(v.0, idx),
+        Err(_) => panic!("a tagged ENUMERATED written by the DER writer is not read back by the reader of the same type"),
+    }
+    assert_eq!(r.into_inner().len(), 0);
+    std::mem::forget(buf);
+}
+
+#[kani::proof]
+#[kani::unwind(12)]
+fn der_enumerated_tagged_roundtrip() {
+    enum_tagged_rt::<0>();
+    enum_tagged_rt::<1>();
 }
 
 /// every index of a plain and of an extensible ENUMERATED (root and additions) round trips through BasicWriter/BasicReader
